@@ -57,6 +57,9 @@ fn go<'a, T: IteTable<'a, BddPtr<'a>> + Default>(
         if let Some(msg) = run.label_fault.take() {
             return fail("C01/run-time-variable-not-fresh", format!("op #{}: {}", i, msg));
         }
+        if let Some((what, msg)) = run.sibling_fault.take() {
+            return fail(&format!("C01/wrong-function:siblings:{}", what), format!("op #{} {:?}: {}", i, op, msg));
+        }
         match stepped {
             None => st.bump("op_not_applicable"),
             Some(out) => {
